@@ -93,7 +93,7 @@ class C14(Property):
 
     id = 'C14'
     configs = ('B',)
-    bytes_per_case = 64
+    bytes_per_case = 400
     technique = 'model-based property testing: exhaustive small signature shapes + Hypothesis random shapes, round-trip against a model of the two forms'
     level_text = ('every signature shape with <= 2 parameters per kind (all default-suffix lengths, every subset of keyword-only defaults, with and without '
                   '*args/**kwargs, annotated or not, def / async def / lambda) on each run plus random shapes with up to 5 per kind; the Python-style form must '
@@ -124,6 +124,11 @@ class C14(Property):
 
     def gen(self, cs, ctx):
         npo, npos, nkw = cs.choice(6), cs.choice(6), cs.choice(6)
+        if cs.bool(16):
+            # long parameter lists, at the sizes where sorting and bit-set implementations change behaviour
+            big = cs.pick([17, 21, 31, 32, 33, 34, 40, 63, 64, 65, 66, 100, 129])
+            which = cs.choice(3)
+            npo, npos, nkw = (big if which == 0 else npo), (big if which == 1 else npos), (big if which == 2 else nkw)
         nd = cs.choice(npo + npos + 1)
         flags = [False] * (npo + npos - nd) + [True] * nd
         form = cs.pick(['def', 'def', 'async', 'lambda'])
